@@ -41,7 +41,9 @@ var (
 	floatPool = []string{"0.5", "1.5", "2.25", "100", "0.001", "-2.5"}
 	durPool   = []string{"150ms", "2s", "1m30s", "1h", "0s", "999ms", "1.5s"}
 	bytesPool = []string{"10KB", "1KiB", "1.5MB", "512", "2MiB", "42B", "1GB"}
-	ipPool    = []string{"10.0.0.1", "192.168.1.7", "172.16.5.4", "10.0.0.5", "::1", "2001:db8::1"}
+	ipPool    = []string{"10.0.0.1", "192.168.1.7", "172.16.5.4", "10.0.0.5", "::1", "2001:db8::1",
+		// every hexadecimal letter in both cases, the first and the last ones included; the shortest addresses
+		"fe80::a", "FE80::1", "2001:db8::f00d", "abcd:ef01::A", "::", "::f", "a::"}
 	boolPool  = []string{"true", "false"}
 	junkPool  = []string{"abc", "n/a", "x5"}
 
